@@ -77,6 +77,37 @@ def make_linear_model(rng, n, cdim):
     return model
 
 
+class Budget(Exception):
+    """The right-hand-side budget of one history is exhausted."""
+
+
+class RhsGuard:
+    """Counts system-equation calls; bounds the cost of one history."""
+
+    def __init__(self, eq, limit):
+        self.eq, self.limit, self.n = eq, limit, 0
+
+    def __call__(self, state, t, control, out):
+        self.n += 1
+        if self.n > self.limit:
+            raise Budget
+        self.eq(state, t, control, out)
+
+
+class GuardedModel:
+    """A model callable that draws from the same budget as the system."""
+
+    def __init__(self, model, guard):
+        self.model, self.guard, self.tag = model, guard, model.tag
+
+    def __call__(self, state, t, control, out):
+        g = self.guard
+        g.n += 1
+        if g.n > g.limit:
+            raise Budget
+        self.model(state, t, control, out)
+
+
 def make_instance(rng):
     from moptipyapps.dynamic_control.controllers.ann import anns
     from moptipyapps.dynamic_control.controllers.cubic import cubic
@@ -97,6 +128,7 @@ def make_instance(rng):
             np.array(sysm.training_starting_states[0:k]))
     setattr(sysm, "training_steps", int(rng.integers(10, 40)))
     setattr(sysm, "training_time", float(rng.choice([1.0, 3.0, 8.0])))
+    setattr(sysm, "equations", RhsGuard(sysm.equations, 2_500_000))
     fam = int(rng.integers(6))
     if fam == 0:
         ctrl = linear(sysm)
@@ -368,8 +400,8 @@ def random_history(ctx, rng):
     dim = inst.controller.param_dims
     pool = gen_pool(rng, dim)
     n = inst.system.state_dims
-    models = [make_linear_model(rng, n, inst.system.control_dims)
-              for _ in range(2)]
+    models = [GuardedModel(make_linear_model(rng, n, inst.system.control_dims),
+                           inst.system.equations) for _ in range(2)]
     length = int(rng.integers(10, 41)) if ctx.tier == "thorough" else int(
         rng.integers(8, 16))
     ops = gen_ops(rng, len(pool), len(models), length)
@@ -383,7 +415,11 @@ def random_history(ctx, rng):
     ctx.case()
     ctx.count(f"class[{cls.__name__}]")
     ctx.count(f"controller[{inst.controller.name}]")
-    run_history(ctx, rng, cls, inst, collecting, ops, pool, models, case)
+    try:
+        run_history(ctx, rng, cls, inst, collecting, ops, pool, models, case)
+    except Budget:
+        ctx.count("undecided_histories_rhs_budget")
+    ctx.seen_max("max_rhs_evaluations_per_history", inst.system.equations.n)
     return case
 
 
@@ -409,6 +445,7 @@ def surrogate_history(ctx, rng):
             np.array(sysm.training_starting_states[0:int(rng.integers(1, 3))]))
     setattr(sysm, "training_steps", int(rng.integers(10, 16)))
     setattr(sysm, "training_time", 2.0)
+    setattr(sysm, "equations", RhsGuard(sysm.equations, 4_000_000))
     ctrl = linear(sysm)
     model = make_ann(sysm.state_dims + sysm.control_dims, sysm.state_dims, [])
     inst = SystemModel(sysm, ctrl, model)
@@ -465,6 +502,9 @@ def surrogate_history(ctx, rng):
             main_fes = p.get_consumed_fes()
             raw_inside = sum(1 for e in log
                              if e[0] == "evaluate" and e[1] == "raw")
+    except Budget:
+        ctx.count("undecided_histories_rhs_budget")
+        return
     except ValueError as e:
         # moptipy re-evaluates the best solution when the process ends
         ctx.violation("surrogate-run-fails-end-validation",
